@@ -20,10 +20,12 @@ func (c *Float) SetValue(value float64) {
 
 func (c *Float) SetMinValue(value float64) {
 	c.MinValue = value
+	c.applyRange()
 }
 
 func (c *Float) SetMaxValue(value float64) {
 	c.MaxValue = value
+	c.applyRange()
 }
 
 func (c *Float) SetStepValue(value float64) {
